@@ -209,3 +209,21 @@ Definition spec_run (S : sources) (e : fexp) (mem : memarg) (zero : Qc) (limit :
       noncausal F || match a0_of F with Some a0 => is_nil (sc_deps (t_getitem frozen_alg (t_den F) 0)) && Qc_eqb a0 0 | None => false end ||
       trace_ok S e zero limit 0 [] (normalise_memory (tdense_len (t_den F) - 1) zero mem) tr
   end.
+
+(* a call that starts when every source has already delivered n items (an earlier call of
+   the same filter object consumed them): the same demands, from the instant n on *)
+Definition spec_run_at (S : sources) (e : fexp) (mem : memarg) (zero : Qc) (limit n : nat)
+                       (tr : list event) : bool :=
+  match frozen_at S e n with
+  | BErr _ => true
+  | BOk F _ =>
+      noncausal F || match a0_of F with Some a0 => is_nil (sc_deps (t_getitem frozen_alg (t_den F) 0)) && Qc_eqb a0 0 | None => false end ||
+      trace_ok S e zero limit n [] (normalise_memory (tdense_len (t_den F) - 1) zero mem) tr
+  end.
+
+(* the shape of a filter: its powers and which coefficients are Streams *)
+Definition shape_of (d : list (Z * scoef)) : list (Z * bool) :=
+  map (fun kv => (fst kv, negb (is_nil (sc_deps (snd kv))))) d.
+Definition zb_eqb (a b : Z * bool) : bool := Z.eqb (fst a) (fst b) && Bool.eqb (snd a) (snd b).
+Definition same_shape (a b : list (Z * bool)) : bool :=
+  forallb (fun x => existsb (zb_eqb x) b) a && forallb (fun x => existsb (zb_eqb x) a) b.
